@@ -89,7 +89,7 @@ def _curated():
                       ('C', 'ma', 0), ('I', '', 0)):
         ops.append(['S', cn, cm, v])
     ops.append(['N'])
-    for k in ('int', 'object', 'class', 'function', 'str'):
+    for k in ('int', 'object', 'class', 'function', 'str', 'anyeq'):
         ops.append(['F', k])
     return ops
 
@@ -177,9 +177,26 @@ class _Builder:
             ob = None
         else:
             ob = {'int': 42, 'object': object(), 'class': _Builder,
-                  'function': _curated, 'str': 'I'}[op[1]]
+                  'function': _curated, 'str': 'I',
+                  'anyeq': _AnyEq()}[op[1]]
         self.cache[key] = ob
         return ob
+
+
+class _AnyEq:
+    """a foreign object (no __name__/__module__ of its own on the instance
+    ... it has none at all) that defines equality itself, the way unwrapping
+    proxies and ANY-style sentinels do: the interface has to leave the
+    answer to it (seed C12g)"""
+    __slots__ = ()
+
+    def __eq__(self, other):
+        return True
+
+    def __ne__(self, other):
+        return False
+
+    __hash__ = None
 
 
 def _key(op):
@@ -304,7 +321,14 @@ def _pair_case(case, out):
             if got != 'TypeError':
                 out.fail('foreign-order', '%r %s <%s> = %r, expected '
                          'TypeError' % (a_op, sym, kind, got))
-        if (a == b) is not False or (a != b) is not True:
+        if kind == 'anyeq':
+            # the other operand decides: reflected comparisons agree
+            if (a == b) is not True or (a != b) is not False or \
+                    (b == a) is not True or (b != a) is not False:
+                out.fail('foreign-eq-reflected', '%r vs an object that '
+                         'defines equality: == %r != %r' % (a_op, a == b,
+                                                            a != b))
+        elif (a == b) is not False or (a != b) is not True:
             out.fail('foreign-eq', '%r vs <%s>: == %r != %r' % (
                 a_op, kind, a == b, a != b))
 
